@@ -1,18 +1,18 @@
-(* C13 (3): Fourier1 sum bound for every shape with at most 32 points per direction (partial: the bound on the
+(* C13 (3): Fourier1 sum bound for every shape with at most 64 points per direction (partial: the bound on the
    number of points is in the statement). *)
 From Coq Require Import ZArith List Lia Reals Lra.
 From P Require Import C13_gen C13_model C13_proofs_weights C13_proofs_f1_0 C13_proofs_f1_1 C13_proofs_f1_2 C13_proofs_f1_3 C13_proofs_f1_4 C13_proofs_f1_5 C13_proofs_f1_6 C13_proofs_f1_7.
 Open Scope R_scope.
 
-Lemma f1s_bounds n : (1 <= n <= 32)%Z -> 1 - / IZR n <= f1s n <= 1.
+Lemma f1s_bounds n : (1 <= n <= 64)%Z -> 1 - / IZR n <= f1s n <= 1.
 Proof.
   intros H.
-  assert (C : n = 1%Z \/ n = 2%Z \/ n = 3%Z \/ n = 4%Z \/ n = 5%Z \/ n = 6%Z \/ n = 7%Z \/ n = 8%Z \/ n = 9%Z \/ n = 10%Z \/ n = 11%Z \/ n = 12%Z \/ n = 13%Z \/ n = 14%Z \/ n = 15%Z \/ n = 16%Z \/ n = 17%Z \/ n = 18%Z \/ n = 19%Z \/ n = 20%Z \/ n = 21%Z \/ n = 22%Z \/ n = 23%Z \/ n = 24%Z \/ n = 25%Z \/ n = 26%Z \/ n = 27%Z \/ n = 28%Z \/ n = 29%Z \/ n = 30%Z \/ n = 31%Z \/ n = 32%Z) by lia.
-  repeat (destruct C as [-> | C]); [exact f1s_bound_1 | exact f1s_bound_2 | exact f1s_bound_3 | exact f1s_bound_4 | exact f1s_bound_5 | exact f1s_bound_6 | exact f1s_bound_7 | exact f1s_bound_8 | exact f1s_bound_9 | exact f1s_bound_10 | exact f1s_bound_11 | exact f1s_bound_12 | exact f1s_bound_13 | exact f1s_bound_14 | exact f1s_bound_15 | exact f1s_bound_16 | exact f1s_bound_17 | exact f1s_bound_18 | exact f1s_bound_19 | exact f1s_bound_20 | exact f1s_bound_21 | exact f1s_bound_22 | exact f1s_bound_23 | exact f1s_bound_24 | exact f1s_bound_25 | exact f1s_bound_26 | exact f1s_bound_27 | exact f1s_bound_28 | exact f1s_bound_29 | exact f1s_bound_30 | exact f1s_bound_31 | subst n; exact f1s_bound_32].
+  assert (C : n = 1%Z \/ n = 2%Z \/ n = 3%Z \/ n = 4%Z \/ n = 5%Z \/ n = 6%Z \/ n = 7%Z \/ n = 8%Z \/ n = 9%Z \/ n = 10%Z \/ n = 11%Z \/ n = 12%Z \/ n = 13%Z \/ n = 14%Z \/ n = 15%Z \/ n = 16%Z \/ n = 17%Z \/ n = 18%Z \/ n = 19%Z \/ n = 20%Z \/ n = 21%Z \/ n = 22%Z \/ n = 23%Z \/ n = 24%Z \/ n = 25%Z \/ n = 26%Z \/ n = 27%Z \/ n = 28%Z \/ n = 29%Z \/ n = 30%Z \/ n = 31%Z \/ n = 32%Z \/ n = 33%Z \/ n = 34%Z \/ n = 35%Z \/ n = 36%Z \/ n = 37%Z \/ n = 38%Z \/ n = 39%Z \/ n = 40%Z \/ n = 41%Z \/ n = 42%Z \/ n = 43%Z \/ n = 44%Z \/ n = 45%Z \/ n = 46%Z \/ n = 47%Z \/ n = 48%Z \/ n = 49%Z \/ n = 50%Z \/ n = 51%Z \/ n = 52%Z \/ n = 53%Z \/ n = 54%Z \/ n = 55%Z \/ n = 56%Z \/ n = 57%Z \/ n = 58%Z \/ n = 59%Z \/ n = 60%Z \/ n = 61%Z \/ n = 62%Z \/ n = 63%Z \/ n = 64%Z) by lia.
+  repeat (destruct C as [-> | C]); [exact f1s_bound_1 | exact f1s_bound_2 | exact f1s_bound_3 | exact f1s_bound_4 | exact f1s_bound_5 | exact f1s_bound_6 | exact f1s_bound_7 | exact f1s_bound_8 | exact f1s_bound_9 | exact f1s_bound_10 | exact f1s_bound_11 | exact f1s_bound_12 | exact f1s_bound_13 | exact f1s_bound_14 | exact f1s_bound_15 | exact f1s_bound_16 | exact f1s_bound_17 | exact f1s_bound_18 | exact f1s_bound_19 | exact f1s_bound_20 | exact f1s_bound_21 | exact f1s_bound_22 | exact f1s_bound_23 | exact f1s_bound_24 | exact f1s_bound_25 | exact f1s_bound_26 | exact f1s_bound_27 | exact f1s_bound_28 | exact f1s_bound_29 | exact f1s_bound_30 | exact f1s_bound_31 | exact f1s_bound_32 | exact f1s_bound_33 | exact f1s_bound_34 | exact f1s_bound_35 | exact f1s_bound_36 | exact f1s_bound_37 | exact f1s_bound_38 | exact f1s_bound_39 | exact f1s_bound_40 | exact f1s_bound_41 | exact f1s_bound_42 | exact f1s_bound_43 | exact f1s_bound_44 | exact f1s_bound_45 | exact f1s_bound_46 | exact f1s_bound_47 | exact f1s_bound_48 | exact f1s_bound_49 | exact f1s_bound_50 | exact f1s_bound_51 | exact f1s_bound_52 | exact f1s_bound_53 | exact f1s_bound_54 | exact f1s_bound_55 | exact f1s_bound_56 | exact f1s_bound_57 | exact f1s_bound_58 | exact f1s_bound_59 | exact f1s_bound_60 | exact f1s_bound_61 | exact f1s_bound_62 | exact f1s_bound_63 | subst n; exact f1s_bound_64].
 Qed.
 
 Lemma fourier1_sum_bound3_partial_lemma : forall vol n0 n1 n2,
-  (1 <= n0 <= 32)%Z -> (1 <= n1 <= 32)%Z -> (1 <= n2 <= 32)%Z -> vol <> 0 ->
+  (1 <= n0 <= 64)%Z -> (1 <= n1 <= 64)%Z -> (1 <= n2 <= 64)%Z -> vol <> 0 ->
   Rabs (sumR (fourier1_weights3 vol n0 n1 n2) / vol - 1) <= 1 / IZR n0 + 1 / IZR n1 + 1 / IZR n2.
 Proof.
   intros vol n0 n1 n2 H0 H1 H2 Hv.
@@ -20,7 +20,7 @@ Proof.
 Qed.
 
 Lemma fourier1_sum_bound2_partial_lemma : forall vol n0 n1,
-  (1 <= n0 <= 32)%Z -> (1 <= n1 <= 32)%Z -> vol <> 0 ->
+  (1 <= n0 <= 64)%Z -> (1 <= n1 <= 64)%Z -> vol <> 0 ->
   Rabs (sumR (fourier1_weights2 vol n0 n1) / vol - 1) <= 1 / IZR n0 + 1 / IZR n1.
 Proof.
   intros vol n0 n1 H0 H1 Hv.
